@@ -929,9 +929,11 @@ def run(chk):
             i, e, o = v
             cls = classify(h[i], e, o)
             # one replay per kind of failure (class, operation, device), at most 6 in all
-            if reported >= 6 or (cls, h[i].split()[0], dev) in kinds:
+            last = [l for l in h[:i + 1] if l != "readall"] or [h[i]]
+            kind = (cls, last[-1].split()[0], dev)
+            if reported >= 6 or kind in kinds:
                 continue
-            kinds.add((cls, h[i].split()[0], dev))
+            kinds.add(kind)
             reported += 1
             hh = h[:i + 1]
 
